@@ -93,6 +93,11 @@ def _o_c02(rng, c, variant):
     return {"texts": rows, "kinds": kinds, "convert": convert, "shadow": rng.random() < 0.5}
 
 
+def _o_c08(rng, c, variant):
+    """variant 1: the document is constructed on a page of another table width and given the scenario's page afterwards."""
+    return {"repage": True} if variant == 1 else {}
+
+
 def _o_c03(rng, c, variant):
     """variant 1: the row heights come from a numeric column (Int64 / Float64 digits wrapping in a narrow column);
     variant 2: a group_by column whose label needs 2-3 lines (shown on the first row of a group and of every page)."""
@@ -233,10 +238,10 @@ PROPS = {
                                  TitleSet={True}, SublineSet={True})),
                    # every paper / orientation spelling on a table of several pages
                    dict(consts=C(NSet={5}, Heights={1}, NrowSet={3}, Strategies={"plain", "subline"}, HdrSet={"default"},
-                                 PaperSet={"letter", "letterm", "landscape", "a4", "a4land", "a4landp", "custom"}, PgHFSet={0, 3})),
+                                 PaperSet={"letter", "letterm", "landscape", "a4", "a4land", "a4landp", "custom"}, PgHFSet={0, 3, 15})),
                    dict(consts=C(NSet={0, 1, 5, 8}, Heights={1}, NrowSet={3, 4, 6, 20}, Strategies=S3, HdrSet={"none", "default", "explicit", "explicit2"},
                                  FootSet=FS3, SrcSet=FS3, PlaceSet=PL3, TitleSet=NP, SublineSet=NP, PbHdrSet=NP, HdrWSet=NP, HdrTupleSet=NP,
-                                 PaperSet={"letter", "letterm", "landscape", "a4", "a4land", "a4landp", "custom"}, PgHFSet={0, 1, 2, 3}), simulate=1200)],
+                                 PaperSet={"letter", "letterm", "landscape", "a4", "a4land", "a4landp", "custom"}, PgHFSet={0, 1, 2, 3, 5, 10, 15}), simulate=1200)],
             thorough=[dict(consts=C(NSet={1, 5}, Heights={1}, NrowSet={3, 4, 20}, Strategies=S3, HdrSet={"none", "default"}, FootSet=FS3, SrcSet=FS3,
                                     PlaceSet=PL3, TitleSet={True}, SublineSet={True}, PbHdrSet=NP)),
                       dict(consts=C(NSet={0}, Heights={1}, NrowSet={3}, Strategies=S3, HdrSet={"none", "default"}, FootSet=FS3, SrcSet=FS3, PlaceSet=PL3,
@@ -244,7 +249,7 @@ PROPS = {
                       dict(consts=C(NSet={0, 1, 5, 12}, Heights={1, 2}, NrowSet={3, 4, 6, 20}, Strategies=ALL_STRAT,
                                     HdrSet={"none", "default", "explicit", "explicit2"}, FootSet=FS3, SrcSet=FS3, PlaceSet=PL3, TitleSet=NP,
                                     SublineSet=NP, PbHdrSet=NP, PaperSet={"letter", "letterm", "landscape", "a4", "a4land", "a4landp", "custom"},
-                                    PgHFSet={0, 1, 2, 3}, HdrWSet=NP, HdrTupleSet=NP), simulate=12000)]),
+                                    PgHFSet={0, 1, 2, 3, 5, 10, 15}, HdrWSet=NP, HdrTupleSet=NP), simulate=12000)]),
         nontrivial=lambda c, pred: pred is not None and pred and pred[-1]["p"] >= 2,
     ),
     "C07": dict(
@@ -277,20 +282,21 @@ PROPS = {
         gen=dict(
             quick=[# wide tables (rounding must not accumulate over many columns): every width pattern, exhaustively
                    dict(consts=C(NSet={2}, Heights={1}, NrowSet={30}, Strategies={"plain", "pageby"}, LevelSet={1}, HdrSet={"default", "explicit"},
-                                 FootSet={"none", "table"}, NDataSet={7, 8, 9, 12}, RelWSet={"equal", "asc", "mixed", "tenths"}, HdrWSet=NP,
+                                 FootSet={"none", "table"}, NDataSet={7, 8, 9, 12}, RelWSet={"equal", "asc", "mixed", "tenths", "ascdisp", "mixeddisp"}, HdrWSet=NP,
                                  PaperSet={"letter", "landscape", "custom"})),
                    dict(consts=C(NSet={3}, Heights={1}, NrowSet={3, 30}, Strategies=ALL_STRAT, LevelSet={1, 2}, NewPageSet=NP, PbRowSet=PR,
                                  HdrSet={"none", "default", "explicit", "explicit2"}, FootSet={"none", "table"}, SrcSet={"none", "table"},
-                                 NDataSet={1, 2, 3, 4, 6}, GPosSet={"first", "middle", "last", "split"}, RelWSet={"equal", "asc", "mixed", "tenths"},
-                                 HdrWSet=NP, HdrTupleSet=NP, PaperSet={"letter", "landscape", "custom"}), simulate=1500)],
+                                 NDataSet={1, 2, 3, 4, 6}, GPosSet={"first", "middle", "last", "split"}, RelWSet={"equal", "asc", "mixed", "tenths", "ascdisp", "mixeddisp"},
+                                 HdrWSet=NP, HdrTupleSet=NP, PaperSet={"letter", "landscape", "custom"}), simulate=1100, variants=2)],
             thorough=[dict(consts=C(NSet={2}, Heights={1}, NrowSet={30}, Strategies={"plain", "pageby"}, LevelSet={1}, HdrSet={"default", "explicit"},
-                                    FootSet={"none", "table"}, NDataSet={7, 8, 9, 10, 11, 12}, RelWSet={"equal", "asc", "mixed", "tenths"}, HdrWSet=NP,
+                                    FootSet={"none", "table"}, NDataSet={7, 8, 9, 10, 11, 12}, RelWSet={"equal", "asc", "mixed", "tenths", "ascdisp", "mixeddisp"}, HdrWSet=NP,
                                     PaperSet={"letter", "landscape", "a4", "custom"})),
                       dict(consts=C(NSet={3, 9}, Heights={1}, NrowSet={3, 30}, Strategies=ALL_STRAT, LevelSet={1, 2, 3}, NewPageSet=NP, PbRowSet=PR,
                                     HdrSet={"none", "default", "explicit", "explicit2"}, FootSet={"none", "table"}, SrcSet={"none", "table"},
                                     NDataSet={1, 2, 3, 4, 6, 9, 12}, GPosSet={"first", "middle", "last", "split"},
-                                    RelWSet={"equal", "asc", "mixed", "tenths"}, HdrWSet=NP, HdrTupleSet=NP,
-                                    PaperSet={"letter", "landscape", "a4", "custom"}), simulate=15000)]),
+                                    RelWSet={"equal", "asc", "mixed", "tenths", "ascdisp", "mixeddisp"}, HdrWSet=NP, HdrTupleSet=NP,
+                                    PaperSet={"letter", "landscape", "a4", "custom"}), simulate=11000, variants=2)]),
+        opts=_o_c08,
         nontrivial=lambda c, pred: c.get("ndata", 2) + (c["nlev"] if pipeline.has_pb(c) else 0) >= 2,
     ),
 }
